@@ -59,6 +59,10 @@ type poolResult struct {
 	MaxBurst       int    `json:"max_burst"`
 	Procs0         int    `json:"procs0"`
 	AboveNumCPU    int    `json:"above_numcpu"`
+	Idle           bool   `json:"idle,omitempty"` // idle-then-collect run (idle.go)
+	BlocksBefore   int    `json:"blocks_before,omitempty"`
+	PrivatesBefore int    `json:"privates_before,omitempty"`
+	BlocksAfter    int    `json:"blocks_after,omitempty"`
 }
 
 type rwResult struct {
@@ -661,6 +665,8 @@ func main() {
 		var out interface{}
 		if parts[1] == "pool" {
 			out = poolStorm(o.Seed, idx, o.Thorough())
+		} else if parts[1] == "idle" {
+			out = poolIdle(o.Seed, idx, o.Thorough())
 		} else if parts[1] == "hammer" {
 			out = poolHammer(o.Seed, idx, o.Thorough())
 		} else {
@@ -704,6 +710,13 @@ func main() {
 	for i := 0; i < nham; i++ {
 		jobs = append(jobs, &job{what: "hammer", idx: i})
 	}
+	nidle := 6 // even: recorded history on 2-3 Ps; odd: all Ps, ownership flag only
+	if th {
+		nidle = 40
+	}
+	for i := 0; i < nidle; i++ {
+		jobs = append(jobs, &job{what: "idle", idx: i})
+	}
 	sem := make(chan struct{}, 3)
 	var jwg sync.WaitGroup
 	for _, j := range jobs {
@@ -720,6 +733,7 @@ func main() {
 
 	totalEvents, totalGC, totalPC, stolenRuns, totalAbove := 0, 0, 0, 0, 0
 	var hammerOps int64
+	idleRuns, idleDropped := 0, 0
 	type pcase struct {
 		term, label string
 		replay      interface{}
@@ -732,6 +746,9 @@ func main() {
 		}
 		if j.what == "hammer" {
 			label = "pool/hammer(ownership flag)"
+		}
+		if j.what == "idle" {
+			label = "pool/idle-then-collect"
 		}
 		if j.err != nil {
 			w.Violation(label, "the code under test crashed or hung in a child process", map[string]interface{}{"child": fmt.Sprintf("%s:%d", j.what, j.idx), "error": j.err.Error(), "stderr": j.tail, "seed": o.Seed})
@@ -749,7 +766,7 @@ func main() {
 			}
 			continue
 		}
-		if j.what == "pool" {
+		if j.what == "pool" || j.what == "idle" {
 			var r poolResult
 			if err := json.Unmarshal(j.out, &r); err != nil {
 				w.Violation(label, "child output unreadable", map[string]interface{}{"error": err.Error(), "stderr": j.tail})
@@ -762,13 +779,22 @@ func main() {
 			if r.MaxBurst > 256 {
 				stolenRuns++
 			}
-			meta := map[string]interface{}{"child": fmt.Sprintf("pool:%d", j.idx), "seed": o.Seed, "has_new": r.HasNew, "events": len(r.Events), "gcs": r.GCs,
+			if r.Idle {
+				idleRuns++
+				if r.BlocksAfter < r.BlocksBefore {
+					idleDropped++
+				}
+			}
+			meta := map[string]interface{}{"child": fmt.Sprintf("%s:%d", j.what, j.idx), "idle_then_collect": r.Idle, "full_blocks_before_idle": r.BlocksBefore,
+				"full_blocks_after_idle": r.BlocksAfter, "partly_filled_privates": r.PrivatesBefore, "seed": o.Seed, "has_new": r.HasNew, "events": len(r.Events), "gcs": r.GCs,
 				"gomaxprocs_changes": r.ProcChanges, "goroutines": r.Goroutines, "max_burst": r.MaxBurst, "procs0": r.Procs0, "changes_to_above_numcpu": r.AboveNumCPU, "numcpu": runtime.NumCPU()}
 			if r.FlagViolations > 0 {
 				w.Violation(label, "ownership flag CAS failed: an object was handed out while another caller owned it",
 					map[string]interface{}{"count": r.FlagViolations, "example": r.FlagDetail, "run": meta})
 			}
-			pcs = append(pcs, pcase{histTerm(r), label, meta})
+			if len(r.Events) > 0 {
+				pcs = append(pcs, pcase{histTerm(r), label, meta})
+			}
 		} else {
 			var r rwResult
 			if err := json.Unmarshal(j.out, &r); err != nil {
@@ -822,6 +848,8 @@ func main() {
 	}
 	// ---- the ring and the chain of rings behind the pool's shared / unused chains ----
 	emitDeque(w, rng.Fork(), th, o.Seed)
+	w.Notes["idle_then_collect_runs"] = idleRuns
+	w.Notes["idle_then_collect_runs_where_gc_dropped_chains"] = idleDropped
 	w.Notes["pool_history_events"] = totalEvents
 	w.Notes["hammer_get_put_calls_flag_checked"] = hammerOps
 	w.Notes["forced_gc_cycles"] = totalGC
